@@ -3,6 +3,25 @@
 splices it into DESIGN.md between the KILLMATRIX markers."""
 import json, os, glob
 VERIF = os.path.dirname(os.path.dirname(os.path.abspath(__file__)))
+# planted changes that no check reports *by design*: the clause that caught them
+# was found to demand more than the statement (DESIGN.md sections 11 and 14), or
+# the change only touches something the statement leaves open
+OUTSIDE = {
+ "C15-v2": "which mode counts when it is switched between construction and request is open (second review)",
+ "r3-T5-v2": "which mode counts when it is switched between construction and request is open (second review)",
+ "r5-C09-v1": "how several values of one header field are read is open (second review); repetitions are generated only where every reading agrees",
+ "r5-C10-v1": "only the harness' own writing into Params() of a bind-less route exposed it (second review)",
+ "r6-C05-v1": "only the harness' own writing into Params() of a bind-less route exposed it (second review)",
+ "r5-C18-v2": "who owns the list QueryStrings returns is not said (second review)",
+ "r6-C10-v2": "whether method 'get' is the method GET is open (second review)",
+ "r8-C07-v2": "whether method 'get' is the method GET is open (second review)",
+ "r9-C13-v2": "concurrent use of one ResponseWriter is outside 'every sequence of operations' (second review)",
+ "r12-C09-v2": "the same header named twice in one Headers() call, in different letter case: not classified",
+ "r13-C07-v2": "the same header named twice in one Headers() call, in different letter case: not classified",
+ "r13-C02-v2": "what a capture limit with a leading zero means is not said",
+ "r13-C01-v1": "needs a refused registration: C01 speaks of registered sets (C08 reports it)",
+ "r13-C13-v2": "needs a before-function that panics: excluded in C13 (C15 reports it)",
+}
 rows = []
 for d in sorted(glob.glob(os.path.join(VERIF, "seeded", "*"))):
     mp = os.path.join(d, "meta.json")
@@ -13,7 +32,10 @@ for d in sorted(glob.glob(os.path.join(VERIF, "seeded", "*"))):
     checks = m.get("checks", {})
     caught = [k for k, v in checks.items() if v.get("caught")]
     missed = [k for k, v in checks.items() if not v.get("caught")]
-    rows.append((m["name"], m.get("property", ""), "yes" if valid else "NO", ", ".join(caught) or "-", ", ".join(missed) or "-", m.get("needs", "")[:170], m.get("source", "")[:40]))
+    needs = m.get("needs", "")[:170]
+    if m["name"] in OUTSIDE and m.get("property") not in caught:
+        needs += " **[not reported by %s by design: %s]**" % (m.get("property"), OUTSIDE[m["name"]])
+    rows.append((m["name"], m.get("property", ""), "yes" if valid else "NO", ", ".join(caught) or "-", ", ".join(missed) or "-", needs, m.get("source", "")[:40]))
 out = ["| seed | property | confirmed (suite passes, demo fails only with it) | caught by | run but not caught by | what it needs to manifest |", "|---|---|---|---|---|---|"]
 for r in rows:
     out.append("| %s | %s | %s | %s | %s | %s |" % r[:6])
